@@ -2,8 +2,14 @@ module verifharness
 
 go 1.23
 
-require github.com/elastic/go-libaudit/v2 v2.0.0
+require (
+	github.com/elastic/go-libaudit/v2 v2.0.0
+	gopkg.in/yaml.v3 v3.0.1
+)
 
-require golang.org/x/sys v0.11.0 // indirect
+require (
+	github.com/kballard/go-shellquote v0.0.0-20180428030007-95032a82bc51 // indirect
+	golang.org/x/sys v0.11.0 // indirect
+)
 
 replace github.com/elastic/go-libaudit/v2 => /repo
